@@ -305,7 +305,12 @@ func (s *v4Server) rmDynamicLease(lease *dhcpsvc.Lease) (err error) {
 			continue
 		}
 
-		if !l.IsStatic && l.Hostname == lease.Hostname {
+		if !l.IsStatic && l.Hostname != "" && l.Hostname == lease.Hostname {
+			// Keep the index of hostnames in sync with the lease.
+			if s.hostsIndex[l.Hostname] == l {
+				delete(s.hostsIndex, l.Hostname)
+			}
+
 			l.Hostname = ""
 		}
 
